@@ -20,22 +20,101 @@ def names(node):
 
 
 def extract_trans_tables(mod):
-    """{func name: {TRANSk or None: [sympy exprs]}} from the _advanN_trans functions"""
+    """{func name: {TRANSk or None: [sympy exprs]}} from the _advanN_trans functions: each function is evaluated for every
+    TRANS literal it compares its parameter with (and once for "anything else"): assignments to locals, if/elif/else on the
+    parameter, tuples, tuple concatenation and Expr arithmetic - nothing else may occur"""
     out = {}
     for fname, f in mod.functions.items():
         if not (fname.startswith('_advan') and fname.endswith('_trans')):
             continue
-        chain = T.if_chain(f.node, 'trans')
+        par = f.node.args.args[0].arg if f.node.args.args else 'trans'
+        keys = sorted({c.value for n in ast.walk(f.node) if isinstance(n, ast.Compare) for c in n.comparators + [n.left]
+                       if isinstance(c, ast.Constant) and isinstance(c.value, str)
+                       and any(isinstance(x, ast.Name) and x.id == par for x in [n.left] + n.comparators)})
+        # literals may also come as a tuple / set (`trans in ('TRANS1', 'TRANS2')`)
+        keys = sorted(set(keys) | {e.value for n in ast.walk(f.node) if isinstance(n, ast.Compare)
+                                   and isinstance(n.left, ast.Name) and n.left.id == par for c in n.comparators
+                                   if isinstance(c, (ast.Tuple, ast.List, ast.Set)) for e in c.elts
+                                   if isinstance(e, ast.Constant) and isinstance(e.value, str)})
         tbl = {}
-        for key, body in chain.items():
-            rets = [s for s in body if isinstance(s, ast.Return)]
-            if len(rets) != 1:
-                raise AnalysisError(f'{fname}: branch {key} does not end in a single return')
-            v = rets[0].value
-            elts = v.elts if isinstance(v, ast.Tuple) else [v]
-            tbl[key] = [T.to_sympy(e) for e in elts]
+        for key in keys + [None]:
+            tbl[key] = _eval_trans(fname, f.node.body, {par: key if key is not None else '<any other>'})
+        if len(tbl) < 2:
+            raise AnalysisError(f'{fname}: no TRANS literal found')
         out[fname] = tbl
     return out
+
+
+def _fold_fstrings(e, env):
+    class F(ast.NodeTransformer):
+        def visit_JoinedStr(self, j):
+            parts = []
+            for v in j.values:
+                if isinstance(v, ast.Constant):
+                    parts.append(str(v.value))
+                elif isinstance(v, ast.FormattedValue) and v.format_spec is None and v.conversion == -1:
+                    x = v.value
+                    if isinstance(x, ast.Name) and isinstance(env.get(x.id), (int, str)):
+                        parts.append(str(env[x.id]))
+                    elif isinstance(x, ast.Constant):
+                        parts.append(str(x.value))
+                    else:
+                        return j
+                else:
+                    return j
+            return ast.Constant(value=''.join(parts))
+    import copy
+    return F().visit(copy.deepcopy(e))
+
+
+def _eval_trans(fname, stmts, env):
+    def val(e):
+        if isinstance(e, ast.Tuple):
+            return [x for el in e.elts for x in ([val(el)] if not isinstance(el, ast.Starred) else val(el.value))]
+        if isinstance(e, ast.BinOp) and isinstance(e.op, ast.Add):
+            a, b = val(e.left), val(e.right)
+            if isinstance(a, list) and isinstance(b, list):
+                return a + b
+        if isinstance(e, ast.Name) and isinstance(env.get(e.id), list):
+            return env[e.id]
+        if isinstance(e, ast.Constant) and isinstance(e.value, (int, str)) and not isinstance(e.value, bool):
+            return e.value if isinstance(e.value, str) else T.to_sympy(e, env)
+        senv = {k: v for k, v in env.items() if not isinstance(v, (list, str))}
+        return T.to_sympy(_fold_fstrings(e, env), senv)
+
+    def run(block):
+        for s in block:
+            if isinstance(s, ast.Expr) and isinstance(s.value, ast.Constant):
+                continue
+            if isinstance(s, ast.Return):
+                v = val(s.value)
+                return v if isinstance(v, list) else [v]
+            if isinstance(s, ast.Assign) and len(s.targets) == 1 and isinstance(s.targets[0], ast.Name):
+                if isinstance(s.value, ast.Constant) and isinstance(s.value.value, int):
+                    env[s.targets[0].id] = s.value.value
+                else:
+                    env[s.targets[0].id] = val(s.value)
+                continue
+            if isinstance(s, ast.If):
+                try:
+                    t = T.eval_pred(s.test, {k: v for k, v in env.items() if isinstance(v, (str, int))})
+                except T.Undecidable as e:
+                    raise AnalysisError(f'{fname}: cannot decide `{unparse(s.test)[:60]}`: {e}')
+                r = run(s.body if t else s.orelse)
+                if r is not None:
+                    return r
+                continue
+            if isinstance(s, ast.For) and isinstance(s.iter, (ast.Tuple, ast.List)) and len(s.iter.elts) == 1:
+                r = run([x for x in s.body if not isinstance(x, ast.Break)])     # the once-loop of an inlined helper
+                if r is not None:
+                    return r
+                continue
+            raise AnalysisError(f'{fname}: unsupported statement {unparse(s)[:60]}')
+        return None
+    r = run(stmts)
+    if r is None:
+        raise AnalysisError(f'{fname}: no return reached for {env}')
+    return r
 
 
 def extract_advan_branches(mod):
